@@ -129,19 +129,40 @@ def strip_comments(src):
     return ''.join(out)
 
 
-def grep_forbidden():
-    """scan all project .lean files (comments stripped) for forbidden constructs."""
+def import_closure(modules):
+    """project files (RegionsVerif.*, Driver.*) transitively imported by the given modules."""
+    seen = {}
+    todo = list(modules)
+    while todo:
+        m = todo.pop()
+        if m in seen:
+            continue
+        p = os.path.join(LEAN_DIR, *m.split('.')) + '.lean'
+        if not os.path.exists(p):
+            continue
+        src = open(p).read()
+        seen[m] = (p, src)
+        for mm in re.findall(r'^\s*import\s+((?:RegionsVerif|Driver)\.[\w.]+)', src, flags=re.M):
+            todo.append(mm)
+    return seen
+
+
+def grep_forbidden(modules=None):
+    """scan the .lean files the given modules depend on (comments stripped) for forbidden constructs."""
     hits = []
-    for root, dirs, files in os.walk(LEAN_DIR):
-        dirs[:] = [d for d in dirs if d not in ('.lake', '.audit')]
-        for fn in files:
-            if not fn.endswith('.lean'):
-                continue
-            p = os.path.join(root, fn)
-            src = strip_comments(open(p).read())
-            for ln, line in enumerate(src.splitlines(), 1):
-                if FORBIDDEN.search(line):
-                    hits.append(f'{os.path.relpath(p, LEAN_DIR)}:{ln}: {line.strip()[:100]}')
+    if modules is None:
+        files = []
+        for root, dirs, fns in os.walk(LEAN_DIR):
+            dirs[:] = [d for d in dirs if d not in ('.lake', '.audit')]
+            files += [os.path.join(root, fn) for fn in fns if fn.endswith('.lean')]
+        items = [(p, open(p).read()) for p in files]
+    else:
+        items = list(import_closure(modules).values())
+    for p, raw in sorted(items):
+        src = strip_comments(raw)
+        for ln, line in enumerate(src.splitlines(), 1):
+            if FORBIDDEN.search(line):
+                hits.append(f'{os.path.relpath(p, LEAN_DIR)}:{ln}: {line.strip()[:100]}')
     return hits
 
 
